@@ -105,21 +105,43 @@ def shaped_cases(tier):
     return cases
 
 
+def shorthand_cases(tier):
+    import astgen as A
+    r = A.rng(23)
+    cases = []
+    for k in range(12 if tier == "quick" else 200):
+        sh = [A.shorthand("inner", "iv", [A.attr("i1", A.var("iv")), A.attr("i2", A.call("format", A.string("<{}>"), A.var("iv")))]),
+              A.shorthand("outer", "ov", [A.attr("inner", A.var("ov")), A.attr("o1", A.var("ov"))])]
+        if r.random() < 0.5:
+            sh.append(A.shorthand("outermost", "xv", [A.attr("outer", A.call("format", A.string("{}!"), A.var("xv"))), A.attr("x1")]))
+        use = r.choice(["outer", "outermost"] if len(sh) == 3 else ["outer"])
+        stmts = [A.node(A.var("n")), A.attrn(A.var("n"), A.attr(use, A.call("source-text", A.cap("id"))), A.attr("plain", A.integer(k)))]
+        if r.random() < 0.5:
+            stmts += [A.edge(A.var("n"), A.var("n")), A.attre(A.var("n"), A.var("n"), A.attr(use, A.string("e")))]
+        prog = A.file([A.stanza("(identifier) @id ", stmts)], shorthands=sh)
+        cases += A.both_modes("c02h-%d" % k, prog, r.choice([2, 3, 9]))
+    return cases
+
+
 def run(tier):
     run = X.ExecRun(PROP, tier)
     d = C.workdir("c02")
-    n = 150 if tier == "quick" else 2500
+    n = 100 if tier == "quick" else 2500
     for k, (profile, cnt) in enumerate([("default", n), ("deep", n // 3)]):
         raw = os.path.join(d, "raw_%s.ndjson" % profile)
         C.gen_cases(cnt, C.seed() * 1000 + 20 + k, raw, profile)
         run.add_batch("c02_" + profile, raw)
     run.add_cases("c02_shaped", shaped_cases(tier))
+    # inheritance chains / same-range nodes (from the scoped-variable check) and nested attribute shorthands, both modes
+    import checks.c04 as c04
+    run.add_cases("c02_scoped", c04.shaped_cases(tier, "c02c"))
+    run.add_cases("c02_shorthands", shorthand_cases(tier))
     # design level: TLC enumerates programs itself and checks StrictLazyAgree (with isomorphism decided inside TLA+) on the machines;
     # the enumerated programs are then replayed into the library (spec -> code)
     import mcexec
     progs, mstats, t = mcexec.run(tier, "c02_mcexec")
     rr = __import__("astgen").rng(2)
-    sample = progs if tier == "thorough" and len(progs) < 8000 else rr.sample(progs, min(len(progs), 250 if tier == "quick" else 8000))
+    sample = progs if tier == "thorough" and len(progs) < 8000 else rr.sample(progs, min(len(progs), 150 if tier == "quick" else 8000))
     run.add_cases("c02_enum", mcexec.cases(sample, t, "c02e"))
     run.states += mstats["distinct"]
     run.trans += mstats["states"]
